@@ -22,7 +22,7 @@ pub fn run(env: &Env, rep: &Report) {
     rep.set_rule("VisualSort / BatchVisualSort histories with look-alike objects (shared appearance prototypes), crowds and crossings, missing / low-quality features, duplicates, drop-outs; option combinations: Euclidean / cosine threshold, IoU / Mahalanobis, min votes 1..3, max observations 1..6, minimal track length <= it, use / collect quality, minimal area, own-area shares. Oracle: before every call the appearance claims (usability, votes, weight = sum(largest distance - distance)) and positional weights are re-derived in f64 from the observable galleries and filter states; every record is checked: visual attachment = own heaviest valid claim that no other claimant outweighs; positional attachment = claim-free detection on a gated pair with a track not taken by appearance, maximum-weight among those; an unbeaten claim is honoured; voting type visual exactly for appearance attachments. Non-trivial: a call with >= 2 claimants for one track, or positional and visual attachments in one call; distinct = distinct serialized history");
     rep.assume("calls with a threshold or weight decision closer than 1e-4 are counted as band and not asserted; what happens to a loser's secondary claim is not pinned by the statement and not asserted");
     let pool = IsoPool::new(&env.prop, "visual", std::time::Duration::from_secs(120));
-    let n = env.tier.pick(6_000, 80_000);
+    let n = env.tier.pick(12_000, 120_000);
     for kind in [Kind::VisualSort, Kind::BatchVisualSort] {
         par_generated(rep, "visual", move || history(kind, false, 40), n, workers(), iso_check(&pool, rep));
     }
